@@ -32,13 +32,19 @@ func chk(d []byte) string {
 }
 
 // loads a whole RDB image: Header, every entry, Footer
-func loadRdb(img []byte) (res string) {
+func loadRdb(img []byte, chunk int) (res string) {
 	defer func() {
 		if r := recover(); r != nil {
 			res = "err:panic"
 		}
 	}()
-	l := rdb.NewLoader(bytes.NewReader(img))
+	var l *rdb.Loader
+	if chunk <= 0 {
+		l = rdb.NewLoader(bytes.NewReader(img))
+	} else {
+		// a source that delivers at most chunk bytes per Read (bufio / network behaviour)
+		l = rdb.NewLoader(&chunkReader{img, chunk})
+	}
 	if err := l.Header(); err != nil {
 		return "err:header"
 	}
@@ -122,8 +128,12 @@ func probeC11(c []string, out *bufio.Writer) {
 			}
 		}
 		fmt.Fprintf(out, "%s %d %d %d %s\n", c[0], accV, accC, accT, first)
-	case "rdb": // rdb <image>
-		fmt.Fprintf(out, "%s %s\n", c[0], loadRdb(unhex(c[2])))
+	case "rdb": // rdb <image> [max bytes per Read of the source, 0 = whole]
+		chunk := 0
+		if len(c) > 3 {
+			chunk, _ = strconv.Atoi(c[3])
+		}
+		fmt.Fprintf(out, "%s %s\n", c[0], loadRdb(unhex(c[2]), chunk))
 	case "rdbsweep": // rdbsweep <image>: substitutions at every position, truncations of the trailer
 		img := unhex(c[2])
 		acc := 0
@@ -137,7 +147,7 @@ func probeC11(c []string, out *bufio.Writer) {
 					continue
 				}
 				img[i] = byte(b)
-				if r := loadRdb(img); strings.HasPrefix(r, "ok") {
+				if r := loadRdb(img, 5*(i%2)); strings.HasPrefix(r, "ok") {
 					acc++
 					if first == "-" {
 						first = fmt.Sprintf("%d:%d", i, b)
@@ -148,7 +158,7 @@ func probeC11(c []string, out *bufio.Writer) {
 		}
 		accT := 0
 		for n := len(img) - 9; n < len(img); n++ {
-			if n >= 0 && strings.HasPrefix(loadRdb(img[:n]), "ok") {
+			if n >= 0 && strings.HasPrefix(loadRdb(img[:n], 0), "ok") {
 				accT++
 			}
 		}
